@@ -112,6 +112,31 @@ def _param_deps(fn: ast.FunctionDef, faithful: bool = False) -> Dict[str, Set[st
     return deps
 
 
+def _written_anywhere(prog: Program, last: str) -> bool:
+    """some statement of the package stores INTO a container called `last` (X.last[k] = .., X.last.setdefault / update / append ..,
+    or re-binds it outside a class body / module top level): it can hold what an earlier call left there"""
+    cache = getattr(prog, "_written_tables", None)
+    if cache is None:
+        cache = set()
+        for m in prog.modules.values():
+            for fn in ast.walk(m.tree):
+                if not isinstance(fn, (ast.FunctionDef, ast.AsyncFunctionDef)):
+                    continue
+                for n in ast.walk(fn):
+                    if isinstance(n, ast.Subscript) and isinstance(n.ctx, (ast.Store, ast.Del)):
+                        c = attr_chain(n.value)
+                        if c:
+                            cache.add(c.split(".")[-1])
+                    elif isinstance(n, ast.Call) and isinstance(n.func, ast.Attribute) and n.func.attr in ("setdefault", "update", "append", "extend", "pop", "clear", "insert", "add"):
+                        c = attr_chain(n.func.value)
+                        if c:
+                            cache.add(c.split(".")[-1])
+                    elif isinstance(n, (ast.Attribute, ast.Name)) and isinstance(n.ctx, ast.Store):
+                        cache.add(n.attr if isinstance(n, ast.Attribute) else n.id)
+        prog._written_tables = cache
+    return last in cache
+
+
 def memo_bypass(prog: Program, fi, ignore: Tuple[str, ...] = ("self", "cls", "disp", "verbose")):
     """-> [(return node, store text, key text, parameters the key does not depend on)] for every  return STORE[key] /
     return STORE.get(key)  where STORE is a module-level name or an attribute chain (not a local built in this call)"""
@@ -139,6 +164,8 @@ def memo_bypass(prog: Program, fi, ignore: Tuple[str, ...] = ("self", "cls", "di
             continue  # a container of this call
         if "." not in ch and head not in prog.modules[fi.module].constants and head not in prog.modules[fi.module].imports:
             continue
+        if not _written_anywhere(prog, ch.split(".")[-1]):
+            continue  # a table that nothing ever stores into is a constant look-up, not a memo
         if deps is None:
             deps = _param_deps(fn, faithful=True)
         kd: Set[str] = set()
